@@ -1225,7 +1225,7 @@ def evaluate__uri_collection(self: XPathFunction, context: ta.ContextType = None
     else:
         try:
             AnyURI(uri)
-        except ValueError:
+        except (TypeError, ValueError):
             raise self.error('FODC0004', 'invalid argument to fn:uri-collection') from None
 
         if not context.resource_collections:
